@@ -228,6 +228,12 @@ func genRequest(t *rapid.T, id identity, serial *uint16, allowTransfer bool, lab
 			order = rapid.Permutation(order).Draw(t, label+"_order")
 		}
 		order = append([]int{0}, order...)
+		if len(order) >= 3 && rapid.IntRange(0, 2).Draw(t, label+"_dup") == 0 {
+			// a packet other than the first is sent twice (new serial, same number and body) before the last distinct one
+			i := rapid.IntRange(1, len(order)-2).Draw(t, label+"_dup_of")
+			j := rapid.IntRange(i+1, len(order)-1).Draw(t, label+"_dup_at")
+			order = append(order[:j], append([]int{order[i]}, order[j:]...)...)
+		}
 		r := request{MsgID: m, Kind: "reply", Transfer: true, FullBody: full, Desc: fmt.Sprintf("%#04x in %d packets", m, len(parts))}
 		for _, i := range order {
 			s := next()
